@@ -5,7 +5,7 @@ import editor
 from editor import InT, InX, same, conj
 from stdm import dr
 
-TITLE = 'editor: sign/write chain — snapshot and timestamp describe exactly the buffers that are written, under the file names the client asks for; SignedRole::new signs with role keys only and enforces the threshold; from_signed derives length and digest from the buffer it keeps'
+TITLE = 'editor: sign/write chain — snapshot and timestamp describe exactly the buffers that are written, under the file names the client asks for; SignedRole::new signs with role keys only and enforces the threshold; from_signed derives length and digest from the buffer it keeps; delegate_role / build_targets / TargetsEditor::sign keep exactly the roles and keys put in; change_delegated_targets / sign_targets_editor open and put back the right role'
 
 def fld(adt, struct, name): return adt.fields[(None, F(struct, name))]
 
@@ -139,6 +139,8 @@ def check(R, tier):
     U.update_delegated(R, I, tier)
     U.target_path(R, I, tier)
     U.key_lookup(R, I, tier)
+    U.delegation_edits(R, I, tier)
+    U.editor_switch(R, I, tier)
     native(R, tier)
 
 def native(R, tier):
@@ -169,12 +171,34 @@ def native(R, tier):
                 R.report_violation('editing program: ' + r2['violations'][0], {'op': 'editor_program', 'program': sc.get('program'), 'listed_before': sc.get('listed_before')})
         else:
             R.inconclusive.append(f'counterexample for "{cx["obligation"]}" did not reproduce natively: {json.dumps(sc)[:300]} -> {json.dumps(r2)[:200]}')
+    # delegate_role counterexamples: exact replay through the public TargetsEditor API (equal numbers = the same key)
+    seen = set(); dl_dev = False
+    for cx in [c for c in R.counterexamples if c['group'].startswith('delegate/')]:
+        sc = cx.get('scenario') or {}
+        key = json.dumps([sc.get('old_keys'), sc.get('supplied_keys'), sc.get('roles'), sc.get('pending')])
+        if key in seen or not sc.get('has_delegations', True): continue
+        seen.add(key)
+        r2 = R.replay('delegate_role', {k: sc.get(k) for k in ('old_keys', 'supplied_keys', 'roles', 'pending')})
+        if r2.get('violations'):
+            dl_dev = True
+            if not any(v['what'].startswith('delegate_role') for v in R.violations):
+                R.report_violation(f'delegate_role with {len(sc.get("old_keys") or [])} key(s) in the table and {len(sc.get("supplied_keys") or [])} supplied: ' + r2['violations'][0], dict(sc, op='delegate_role'))
+    # and a directed sweep of the same op (validation of the key-table model): 0..3 keys in the table, 0..3 supplied, with and without overlap
+    for old, sup in [([], [1]), ([1], [1]), ([1], [2, 3]), ([1, 2], [2, 3]), ([1, 2], [3]), ([1, 2, 3], [4, 5, 6]), ([1, 2], [])]:
+        for roles, pending in ((0, 0), (1, 1)) if tier == 'quick' else ((0, 0), (1, 0), (0, 1), (2, 2)):
+            r2 = R.replay('delegate_role', {'old_keys': old, 'supplied_keys': sup, 'roles': roles, 'pending': pending})
+            R.differential['scenarios'] += 1
+            if r2.get('violations') or r2.get('error'):
+                dl_dev = True
+                if not any(v['what'].startswith('delegate_role') for v in R.violations):
+                    R.report_violation(f'delegate_role with keys {old} in the table, {sup} supplied, {roles} role(s), {pending} pending: ' + (r2.get('violations') or [r2.get('error')])[0], {'op': 'delegate_role', 'old_keys': old, 'supplied_keys': sup, 'roles': roles, 'pending': pending})
+            else: R.differential['agree'] += 1
     # the cross-party flow: genuine / same-version / under-signed / wrong keys / mixed / older / unsigned hand-overs against the real editor
     cp = R.replay('cross_party', {'seed': seed}, timeout=600)
     R.differential['scenarios'] += cp['cases']; R.differential['agree'] += cp['cases'] - len(cp['deviations'])
     for d in cp['deviations'][:2]:
         R.report_violation('cross-party update: ' + d['what'], {'op': 'cross_party', 'seed': seed, 'native': d})
-    others = [c for c in R.counterexamples if c['group'] != 'program/target-set' and not (c['group'].startswith('update/') and cp['deviations'])]
+    others = [c for c in R.counterexamples if c['group'] != 'program/target-set' and not (c['group'].startswith('update/') and cp['deviations']) and not (c['group'].startswith('delegate/') and dl_dev)]
     if others and not real:
         for cx in others[:3]:
             R.inconclusive.append(f'counterexample for "{cx["obligation"]}" did not show up in the native editor sweep ({st["programs"]} programs): {str(cx.get("scenario"))[:300]}')
@@ -183,6 +207,8 @@ def replay_file(R, path):
     sc = json.load(open(path))['scenario']
     if sc.get('op') == 'cross_party':
         print(json.dumps(R.replay('cross_party', {'seed': sc.get('seed', 0)}))); return 0
+    if sc.get('op') == 'delegate_role':
+        print(json.dumps(R.replay('delegate_role', {k: sc.get(k) for k in ('old_keys', 'supplied_keys', 'roles', 'pending')}))); return 0
     if sc.get('op') == 'editor_program':
         print(json.dumps(R.replay('editor_program', {'program': sc['program'], 'listed_before': sc['listed_before']}))); return 0
     res = R.replay('editor_roundtrip', {'seed': sc.get('seed', 0), 'programs': sc.get('program', 0) + 1}, timeout=3000)
